@@ -17,7 +17,7 @@ ENGINES = [
      "kind_free_text": "concurrent histories on the real layer-2 announcer + ARP responder over an in-memory PacketConn, checked with porcupine against a sequential model, under the race detector"},
     {"name": "direct-speaker", "path": "harness/speaker/direct_oracle_test.go c04/c10/c12", "serves_properties": ["C04", "C10", "C12"],
      "kind_free_text": "direct calls of the real layer-2 / BGP ShouldAnnounce decisions on generated and enumerated cluster views, one controller per node, eligibility / election oracle written from the statements"},
-    {"name": "frr-interp", "path": "harness/lib/frrinterp.go + harness/frr/c14_test.go + harness/frrk8s/c15_test.go", "serves_properties": ["C14", "C15"],
+    {"name": "frr-interp", "path": "harness/lib/frrinterp.go + harness/frr/c14_test.go + harness/frrk8s/c15_test.go + harness/controllers/c15_test.go", "serves_properties": ["C14", "C15"],
      "kind_free_text": "translation validation: interpreter of the generated FRR configuration text (prefix-lists, route-maps, networks, neighbors) and structural oracle on the FRRConfiguration resource, cross-checked against each other"},
     {"name": "bgp-wire", "path": "harness/native/c16_test.go + harness/lib/rfc4271.go", "serves_properties": ["C16"],
      "kind_free_text": "bytes written by the real sendOpen/sendKeepalive/sendUpdate/sendWithdraw decoded by an independent RFC 4271 codec; hostile OPEN inputs (valid, structure-aware mutations, random) fed to the real readOpen under recover + watchdog + sentinel bytes"},
@@ -108,7 +108,7 @@ META = {
     },
     "C11": {
         "engine": "box-controller",
-        "text": "After every allocator operation / handler return: the bookkeeping must equal that of a fresh allocator rebuilt from the surviving assignments; per pool the counters must equal the distinct in-use addresses and assigned+available the oracle's usable count (math/big, saturating), never negative; every released address is probed (assign + unassign of a probe service must succeed and leave no trace); the real PoolStatusReconciler writes IPAddressPool.status, which must equal the counters at quiescence, and the counters read at the moment of a pool's last change notification must be the final ones.",
+        "text": "After every allocator operation / handler return: the bookkeeping must equal that of a fresh allocator rebuilt from the surviving assignments; per pool the counters must equal the distinct in-use addresses and assigned+available the oracle's usable count (math/big, saturating), never negative (pool layouts that list an address twice are submitted too: refused by the loader today, counted once should they ever be accepted); every released address is probed (assign + unassign of a probe service must succeed and leave no trace); the real PoolStatusReconciler writes IPAddressPool.status, which must equal the counters at quiescence, and the counters read at the moment of a pool's last change notification must be the final ones.",
         "design_ref": "DESIGN.md 2/C11",
         "note": _BOX_NOTE,
         "technique": "runtime monitoring: rebuild-and-compare + counting oracle + release probes on hooked allocator state",
@@ -122,7 +122,7 @@ META = {
     },
     "C13": {
         "engine": "l2-linearizability",
-        "text": "Concurrent histories (3 mutators, 2 requesters, 1 gratuitous spammer) on the real Announce + arpResponder.processRequest over an in-memory PacketConn are recorded at the boundary with one logical clock and checked with porcupine against a sequential model (who holds which address with which interface scope); never-answer frames, refcounts at quiescent points and silence after the last withdraw are checked directly; all under the race detector. Second run (speaker box): the real speaker controller + layer-2 announcer driven by event histories; at every quiescent point every held (service, address) must be an address the Service has, with the interface scope the selecting L2Advertisements ask for, and the per-interface answer must be exactly 'some held scope covers it'.",
+        "text": "Concurrent histories (3 mutators, 2 requesters, 1 gratuitous spammer) on the real Announce + arpResponder.processRequest over an in-memory PacketConn are recorded at the boundary with one logical clock and checked with porcupine against a sequential model (who holds which address with which interface scope); never-answer frames, reads that fail once with ENETDOWN on an open socket (the responder must keep reading), refcounts at quiescent points and silence after the last withdraw are checked directly; all under the race detector. Second run (speaker box): the real speaker controller + layer-2 announcer driven by event histories; at every quiescent point every held (service, address) must be an address the Service has, with the interface scope the selecting L2Advertisements ask for, and the per-interface answer must be exactly 'some held scope covers it'.",
         "design_ref": "DESIGN.md 2/C13",
         "note": "Trusted: porcupine v1.3.0; the harness's ARP codec. NDP only through the shouldAnnounce decision; the real spamLoop cadence is not waited for.",
         "technique": "runtime monitoring: linearizability checking of recorded concurrent histories (porcupine) + race detector",
@@ -136,7 +136,7 @@ META = {
     },
     "C15": {
         "engine": "frr-interp",
-        "text": "Structural oracle on the FRRConfiguration handed to the config-changed callback (allowed prefixes sorted / de-duplicated, communities and local preferences listed for exactly their requesters, router prefixes == union, node selector == this node, session parameters, password xor secret, order independence) and agreement of the per-neighbor map prefix -> (local preference, communities) with the C14 interpretation of the FRR text rendered from the same sessions.",
+        "text": "Structural oracle on the FRRConfiguration handed to the config-changed callback (allowed prefixes sorted / de-duplicated, communities and local preferences listed for exactly their requesters, router prefixes == union, node selector == this node, session parameters, password xor secret, order independence) and agreement of the per-neighbor map prefix -> (local preference, communities) with the C14 interpretation of the FRR text rendered from the same sessions. Second run (reconciler): the real FRRK8sReconciler against a fake API that already stores metallb-<node> in one of 12 states (absent, equal, one difference inside or outside spec.bgp: node selector, raw section, router, neighbor, password, BFD profile, prefixes); the stored spec must equal the desired one, the desired configuration must stay untouched (also when dumped at debug level) and a second Reconcile must not write.",
         "design_ref": "DESIGN.md 2/C15",
         "note": "SourceAddress is not demanded. Cross-check skipped for session sets FRR mode refuses.",
         "technique": "translation validation: structural oracle + cross-check against the interpreted FRR text",
@@ -150,7 +150,7 @@ META = {
     },
     "C17": {
         "engine": "bgp-session",
-        "text": "The real native session (run / connect / sendUpdates / abort / Close) talks over loopback TCP to a scripted peer that decodes every message into a routing table and injects faults at scripted points (drop idle, between messages, inside a message, during OPEN; stall reading; wrong ASN for the first attempts; held OPEN reply). Oracle: bounded-progress convergence of the table to the last requested set, every announced route was requested by an earlier Set, each new connection starts with a full re-send, a wrong-ASN peer (also AS_TRANS without capability) receives nothing after its OPEN, nothing happens after Close returned; the four-octet capability is scripted per connection and every connection is decoded in the form its OPEN asked for. Under the race detector.",
+        "text": "The real native session (run / connect / sendUpdates / abort / Close) talks over loopback TCP to a scripted peer that decodes every message into a routing table and injects faults at scripted points (drop idle, between messages, inside a message, during OPEN; stall reading; wrong ASN for the first attempts; held OPEN reply). Caller scripts include flip-backs (a change and, in the next call, exactly the set the peer already holds). Oracle: bounded-progress convergence of the table to the last requested set, every announced route was requested by an earlier Set, each new connection starts with a full re-send, a wrong-ASN peer (also AS_TRANS without capability) receives nothing after its OPEN, nothing happens after Close returned; the four-octet capability is scripted per connection and every connection is decoded in the form its OPEN asked for. Under the race detector.",
         "design_ref": "DESIGN.md 2/C17",
         "note": "Eventually is decided as bounded progress with the starvation canary and a canary-clean confirmation period; expiry under starvation is inconclusive.",
         "technique": "runtime monitoring with fault injection: scripted peer, table comparison, race detector",
